@@ -96,6 +96,11 @@ func (st *programState) runBalancesQuery() error {
 	// previous queries must not be forgotten. The amounts are copied, so that the maps
 	// owned by the store are never modified when postings are applied to the cache.
 	for accountName, accountBalances := range balances {
+		// the balance of @world is never requested: an entry the store volunteers for it
+		// must not be used either (a store answering exactly what is asked never has one)
+		if accountName == "world" {
+			continue
+		}
 		cachedAccountBalances := defaultMapGet(st.CachedBalances, accountName, func() AccountBalance {
 			return AccountBalance{}
 		})
